@@ -508,6 +508,28 @@ class SymNumpy:
             return self.concatenate(tup)
         return self._concatenate2d([to_arr(a) for a in tup], 1)
 
+    def delete(self, a, obj, axis=None):
+        """np.delete(a, idx) for idx = flatnonzero(mask) [+ constant]: the elements at the other positions, in order
+        (boolean gather with the complement mask); an index outside [0, len(a)) is refused; len = len(a) - len(idx)"""
+        if not any_symbolic((a, obj), {}):
+            return _np.delete(a, obj, axis=axis)
+        a = to_arr(a)
+        nz = getattr(obj, "nz", None)
+        if a.ndim != 1 or nz is None:
+            raise Unsupported("np.delete other than with positions obtained from flatnonzero")
+        sh = getattr(obj, "nz_shift", 0)
+        c = cur()
+        n = dim_term(a.shape_[0])
+        if c.branch(z3.And(nz.cnt > 0, z3.Or(nz.pos(nz.cnt - 1) + sh >= n, nz.pos(0) + sh < -n)), "delete-bounds"):
+            raise IndexError("index out of bounds for np.delete")
+        if sh < 0 and c.branch(z3.And(nz.cnt > 0, nz.pos(0) + sh < 0), "delete-negative"):
+            raise Unsupported("np.delete with negative (wrapping) positions")
+        keep = SymArr.fresh((n,), lambda i: z3.Not(z3.And(0 <= i - sh, i - sh < nz.n, nz.mask(i - sh))), "bool", bool)
+        from .arr import mask_gather
+        r = mask_gather(a, keep)
+        c.assume(r.nz.cnt == n - nz.cnt)           # every deleted position is distinct and inside the array
+        return r
+
     def repeat(self, a, repeats, axis=None):
         if not any_symbolic((a, repeats), {}):
             return _np.repeat(a, repeats, axis=axis)
